@@ -800,6 +800,7 @@ fn check_twin(tc: &TCase, st: &mut Stats) -> CheckResult {
     let mut hh = Hist::new(case, tc.backend, Via::Http, Oracles::default())?;
     let mut hl = Hist::new(case, tc.backend, Via::Lib, Oracles::default())?;
     hh.drv.http_log = Some(vec![]);
+    hh.drv.log_body_limit = usize::MAX;
     let mut quiet = Stats::default();
     quiet.frozen = true;
     for (idx, op) in case.ops.iter().enumerate() {
@@ -1177,6 +1178,7 @@ pub fn run(id: &str, tier: Tier, seed: u64) -> Report {
             p.max_ops = tier.pick(40, 120);
             p.w = [40, 22, 18, 12, 3, 5];
             p.av_latest_pct = 65;
+            p.big_permille = 12;
             let r = engine::explore("C14", "twin", seed, tier.pick(10_000, 100_000), || tcase(&p), check_twin);
             rep.absorb("twin-histories", r);
             rep
